@@ -11,11 +11,12 @@ cleanup() { git -C /repo worktree remove --force $d 2>/dev/null; tag=$(python3 -
 trap cleanup EXIT
 demo_dir=$(python3 -c "import json;print(json.load(open('$src/meta.json')).get('demo_dir',''))")
 demo_file=$(ls $src | grep -E '_test\.go$|\.go$' | head -1)
+race=""; if python3 -c "import json,sys;sys.exit(0 if '-race' in json.load(open('$src/meta.json')).get('demo_cmd','') else 1)"; then race="-race"; fi
 echo "== $prop/$k: $(python3 -c "import json;print(json.load(open('$src/meta.json')).get('what',''))")"
 run_demo() {
   if [ -n "$demo_file" ] && [ -n "$demo_dir" ] && [ -d "$d/$demo_dir" ]; then
     cp $src/$demo_file $d/$demo_dir/zz_seed_demo_test.go
-    (cd $d/$demo_dir && timeout 300 go test -tags verif -count=1 -vet=off -run "$(grep -oE 'func (Test[A-Za-z0-9_]+)' $src/$demo_file | awk '{print $2}' | paste -sd'|')" . 2>&1 | tail -3)
+    (cd $d/$demo_dir && timeout 300 go test $race -tags verif -count=1 -vet=off -run "$(grep -oE 'func (Test[A-Za-z0-9_]+)' $src/$demo_file | awk '{print $2}' | paste -sd'|')" . 2>&1 | tail -3)
     rm -f $d/$demo_dir/zz_seed_demo_test.go
   else
     echo "(demo not a test file in a package dir: $demo_file / $demo_dir)"
